@@ -1193,7 +1193,11 @@ def c10(ctx):
                             ok = t.to.endswith('_IDLE') and not after_cmd
                         ctx.check('var-callback', ok, t.site(e), 'a failing %s callback does not abort the command with ERROR at once' % e['kind'])
                     else:
-                        ctx.instance('var-callback')
+                        # the command goes on: only a zero result may let it
+                        aborted = (set(a['text'] for a in t.acks()) == {'ERROR'}) if which == 'cmd' else t.to.endswith('_IDLE')
+                        zero = t.raw.facts.eq(e['ret'], 0) is True
+                        ctx.check('var-callback', zero or aborted, t.site(e),
+                                  'the command continues after a %s callback whose result may be non-zero' % e['kind'])
     return ctx
 
 
